@@ -75,11 +75,10 @@ def register(reg, prop="C22"):
             # detuning and phase of atom q at step k are those interpolants
             f"forall(lambda k: re(result[1][k, {q}]) == interp('det', {q}, k) and im(result[1][k, {q}]) == 0, 0, NT)",
             f"forall(lambda k: re(result[2][k, {q}]) == interp('phase', {q}, k) and im(result[2][k, {q}]) == 0, 0, NT)",
-            # amplitude: the interpolant, except that beyond the last Pulser sample (extrapolation)
-            # a negative value is replaced by 0
+            # amplitude: the interpolant, except that a negative value may be replaced by 0 (the
+            # property wants the amplitude never negative; where that clamp applies is left open)
             f"forall(lambda k: im(result[0][k, {q}]) == 0 and (re(result[0][k, {q}]) == interp('amp', {q}, k)"
-            f" or (re(result[0][k, {q}]) == 0 and interp('amp', {q}, k) < 0"
-            f" and interp_at('amp', {q}, k) > D - 1)), 0, NT)",
+            f" or (re(result[0][k, {q}]) == 0 and interp('amp', {q}, k) < 0)), 0, NT)",
         ]
 
     for basis in ("ground-rydberg", "XY"):
@@ -100,6 +99,8 @@ def register(reg, prop="C22"):
         label="_extract_omega_delta_phi[amplitude>=0]",
         params={"noisy_samples": none, "qubit_ids": none, "target_times": none}, setup=setup("ground-rydberg"),
         requires=list(base_requires) + [
+            # (target times start at 0 and increase: none is negative -- C21)
+            "forall(lambda k: target_times[k] >= 0, 0, NT + 1)",
             "forall(lambda i: SIG['q0']['amp'][i] >= 0 and SIG['q1']['amp'][i] >= 0, 0, D)"],
         raises={"AssertionError": "noisy_samples.max_duration != target_times[NT]", "ValueError": "D < 2"},
         ensures=["forall(lambda k: re(result[0][k, 0]) >= 0 and re(result[0][k, 1]) >= 0, 0, NT)"],
